@@ -5,15 +5,22 @@
    PacketsRejects.v, CleanProofs.v. *)
 From PahoV Require Import Base.Prelude Codec.RemLen Codec.RemLenProofs Codec.RemLenBridge Codec.Wire
   Codec.Packets Codec.SpecDecode Codec.PacketsSpec Codec.PacketsApi Codec.PacketsProofs Codec.PacketsRejects
-  Codec.CleanProofs Gen.GenRL.
+  Codec.CleanProofs Codec.PacketsBridge Gen.GenRL Gen.GenPubCmd Gen.GenConnFlags.
 
 (* ================================================================ 1. remaining length *)
 (* the source's _pack_remaining_length (translated on every run) is the model, for every n >= 0 *)
+(* rl_pack n = if n >? 268435455 then Raise 1 (ValueError 'Packet too large.') else Ok (rl_encode n) *)
 Theorem C04_source_rl_is_model : forall fuel pkt n,
   (0 < fuel)%nat -> 0 <= n < 128 ^ Z.of_nat fuel ->
-  pack_remaining_length fuel pkt n = Ok (pkt ++ rl_encode n).
+  pack_remaining_length fuel pkt n =
+  match rl_pack n with Ok l => Ok (pkt ++ l) | Raise k => Raise k | OutOfFuel => OutOfFuel end.
 Proof. exact pack_remaining_length_bridge. Qed.
 Print Assumptions C04_source_rl_is_model.
+
+(* the repaired source refuses every length above the limit, before appending anything *)
+Theorem C04_source_rl_rejects : forall fuel pkt n, 268435455 < n -> pack_remaining_length fuel pkt n = Raise 1.
+Proof. exact pack_remaining_length_rejects. Qed.
+Print Assumptions C04_source_rl_rejects.
 
 Theorem C04_rl_roundtrip : forall n rest, 0 <= n <= 268435455 ->
   rl_decode (rl_encode n ++ rest) = Some (n, rest).
@@ -42,11 +49,23 @@ Theorem C04_rl_boundaries :
 Proof. exact rl_boundaries. Qed.
 Print Assumptions C04_rl_boundaries.
 
-(* REFUTATION at the level of this function: above the limit it writes five or more length bytes *)
-Theorem C04_rl_over_refuted : forall n, 268435455 < n ->
-  (5 <= length (rl_encode n))%nat /\ forall rest, rl_decode (rl_encode n ++ rest) = None.
-Proof. exact (fun n H => conj (rl_encode_over_length n H) (fun rest => rl_decode_over n rest H)). Qed.
-Print Assumptions C04_rl_over_refuted.
+(* the flag bytes of _send_publish and _send_connect (clean-flag selection included), translated on every run *)
+Theorem C04_source_publish_flags_is_model : forall fuel dup qos retain,
+  gen_publish_command fuel (b2z dup) qos (b2z retain) = Ok (publish_command dup qos retain).
+Proof. exact publish_command_bridge. Qed.
+Print Assumptions C04_source_publish_flags_is_model.
+
+Theorem C04_source_connect_flags_is_model : forall fuel v cls cs first bridge ka cid will user pw props,
+  gen_connect_flags fuel (proto_level v) (cs_code cs) first cls
+    (is_some will)
+    (match will with Some w => w_qos w | None => 0 end)
+    (match will with Some w => b2z (w_retain w) | None => 0 end)
+    (is_some user) (is_some pw)
+  = Ok (connect_flags {| c_bridge := bridge; c_clean := clean_flag v cls cs first; c_keepalive := ka;
+                         c_client_id := cid; c_will := will; c_username := user; c_password := pw;
+                         c_props := props |}).
+Proof. exact connect_flags_bridge. Qed.
+Print Assumptions C04_source_connect_flags_is_model.
 
 (* ================================================================ 2. round trip, every packet type *)
 (* representable v it : every string <= 65535 bytes, keepalive <= 65535, packet id 1..65535 where sent,
@@ -123,7 +142,7 @@ Print Assumptions C04_rejects.
 (* FULL statements (PacketsRejects.v):
      C04_wellformed_full : whatever the API emits decodes to what was supplied
      C04_rejects_full    : what cannot be represented is rejected with an exception
-   both are REFUTED by the faithful model: *)
+   both are still REFUTED by the faithful model - by one family only, F-C04b (open): *)
 Theorem C04_wellformed_refuted : ~ C04_wellformed_full.
 Proof. exact wellformed_refuted. Qed.
 Print Assumptions C04_wellformed_refuted.
@@ -132,35 +151,39 @@ Theorem C04_rejects_refuted : ~ C04_rejects_full.
 Proof. exact rejects_refuted. Qed.
 Print Assumptions C04_rejects_refuted.
 
-(* F-C04a: publish(1-byte topic, 268435455-byte payload) passes publish()'s check and is emitted with
-   remaining length 268435458 in five length bytes *)
-Theorem C04_overflow_refuted :
-  exists v c bs, api_pre v c = true /\ emit v c = Ok bs /\ spec_decode v bs = None.
-Proof. exact overflow_refuted. Qed.
-Print Assumptions C04_overflow_refuted.
-
-(* ... and in general: ANY packet the encoders emit with remaining length above the limit is malformed *)
-Theorem C04_overflow_malformed : forall v it bs rest,
-  encode v it = Ok bs -> 268435455 < remlen v it ->
-  spec_decode v (bs ++ rest) = None /\ (5 <= length (rl_encode (remlen v it)))%nat.
-Proof. exact overflow_malformed. Qed.
-Print Assumptions C04_overflow_malformed.
-
-(* F-C04b U+0000 in a topic, F-C04c unsubscribe([]), F-C04d wildcard in the will topic *)
+(* the open family F-C04b: U+0000 in a topic is emitted *)
 Theorem C04_nul_refuted : exists v c bs, api_pre v c = true /\ emit v c = Ok bs /\ spec_decode v bs = None.
 Proof. exact nul_refuted. Qed.
 Print Assumptions C04_nul_refuted.
 
-Theorem C04_unsub_empty_refuted : exists v c bs, api_pre v c = true /\ emit v c = Ok bs /\ spec_decode v bs = None.
-Proof. exact unsub_empty_refuted. Qed.
-Print Assumptions C04_unsub_empty_refuted.
+(* F-C04a, F-C04c, F-C04d were repaired in /repo (4b93c7d, d11e023, 470efe3); the model follows the repaired
+   code, their _refuted lemmas are gone and the old witnesses are now theorems of rejection: *)
+Theorem C04_emitted_remlen_in_range : forall v it bs, encode v it = Ok bs -> remlen v it <= 268435455.
+Proof. exact encode_ok_remlen. Qed.
+Print Assumptions C04_emitted_remlen_in_range.
 
-Theorem C04_will_wildcard_refuted : exists v c bs, api_pre v c = true /\ emit v c = Ok bs /\ spec_decode v bs = None.
-Proof. exact will_wildcard_refuted. Qed.
-Print Assumptions C04_will_wildcard_refuted.
+Theorem C04_remlen_rejects : forall v it, 268435455 < remlen v it -> exists k, encode v it = Raise k.
+Proof. exact remlen_rejects. Qed.
+Print Assumptions C04_remlen_rejects.
 
-(* PARTIAL: outside the four excluded families (excl: remaining length <= 268435455, no U+0000 in text
-   fields, unsubscribe list non-empty, no wildcard in the will topic) both statements hold *)
+Theorem C04_overflow_publish_rejected : forall v topic payload qos retain props last_mid,
+  len topic = 1 -> len payload = 268435455 ->
+  emit v (CPublish last_mid topic payload qos retain props) = Raise E_value.
+Proof. exact overflow_publish_rejected. Qed.
+Print Assumptions C04_overflow_publish_rejected.
+
+Theorem C04_unsub_empty_rejected : forall v last_mid props, emit v (CUnsubscribe last_mid [] props) = Raise E_value.
+Proof. exact unsub_empty_rejected. Qed.
+Print Assumptions C04_unsub_empty_rejected.
+
+Theorem C04_will_wildcard_rejected : forall v cls cs first bridge ka cid w user pw props,
+  has_wildcard (wc_topic w) = true ->
+  exists k, emit v (CConnect cls cs first bridge ka cid (Some w) user pw props) = Raise k.
+Proof. exact will_wildcard_rejected. Qed.
+Print Assumptions C04_will_wildcard_rejected.
+
+(* PARTIAL: outside the ONE excluded family (excl v c = excl_nul c: no U+0000 in the text arguments) both
+   statements hold, for every other argument value *)
 Theorem C04_wellformed_partial : forall v c bs,
   api_pre v c = true -> excl v c = true -> emit v c = Ok bs ->
   forall rest, spec_decode v (bs ++ rest) = Some (supplied v c, rest).
@@ -172,6 +195,19 @@ Theorem C04_rejects_partial : forall v c it,
   exists k, encode v it = Raise k.
 Proof. exact rejects_partial. Qed.
 Print Assumptions C04_rejects_partial.
+
+(* where U+0000 cannot occur the FULL statement holds: calls whose text arguments contain no U+0000 ... *)
+Theorem C04_wellformed_no_nul : forall v c bs,
+  api_pre v c = true -> excl_nul c = true -> emit v c = Ok bs -> spec_decode v bs = Some (supplied v c, []).
+Proof. exact wellformed_no_nul. Qed.
+Print Assumptions C04_wellformed_no_nul.
+
+(* ... and DISCONNECT, which has no text argument *)
+Theorem C04_wellformed_disconnect_full : forall v reason props bs,
+  api_pre v (CDisconnect reason props) = true -> emit v (CDisconnect reason props) = Ok bs ->
+  forall rest, spec_decode v (bs ++ rest) = Some (supplied v (CDisconnect reason props), rest).
+Proof. exact wellformed_disconnect_full. Qed.
+Print Assumptions C04_wellformed_disconnect_full.
 
 (* ================================================================ 4. clean flag *)
 (* every CONNECT of every history of connect()/connect_async()/reconnect()/CONNACK/loss from a fresh client *)
